@@ -20,6 +20,8 @@ META = {
 
 
 def check(ctx):
+    from ..rules import kwswap
+    kwswap.repo_wide(ctx, ("emu_sv", "emu_base"), 80)
     step.step_sv(ctx)
     step.role_sv_steppers(ctx)
     observables.lindblad_form(ctx)
